@@ -2,7 +2,9 @@
    Only statements, each closed by [exact <lemma>] and followed by Print Assumptions.
    [v.[i]] is [nth i v 0]; vectors are lists of reals, point sets are lists of vectors. *)
 From Coq Require Import Reals ZArith List Bool Lra Lia.
-From Romea Require Import Num NumR BoxModel BoxProofs.
+From Flocq Require Import Core.
+From Romea Require Import Num NumR BoxModel BoxProofs BoxLits GridMapFloat BoxFloat SrcTieC20.
+From Romea.gen Require Import SrcBoxes.
 Import ListNotations.
 Local Open Scope R_scope.
 
@@ -198,6 +200,315 @@ Theorem C20_obb_to_aabb_tight : forall (c h : list R) (Rm : list (list R)) i,
     (vadd ROps c (mul_vec ROps Rm (map Ropp q))).[i] = c.[i] - e.
 Proof. exact obb_aabb_face_touched. Qed.
 Print Assumptions C20_obb_to_aabb_tight.
+
+(* ====================================================================================================================
+   SYNTACTIC SOURCE TIE.  gen/SrcBoxes.v is regenerated on every run by translate/tr_C20_boxes.py from the clang AST of the
+   class templates instantiated at Scalar = double, DIM = 2 and 3 (per-axis scalar reading of the Eigen expressions; the loop
+   over the points is one fold over the list).  The generated terms equal the BoxModel.v functions all theorems above are
+   about — for EVERY numeric dictionary satisfying the literal laws NumLits (0, 1, 2. are nzero, n_one, ntwo; + and *
+   commute): the reals (C20_ex_lits_R) and the rounded binary64 / binary32 dictionaries (C20_ex_lits_binary64/32), so the
+   floating-point theorems below are about the source's operation sequence as well.
+   Signature of a generated term: parameters flattened in declaration order, then the data members in declaration order.
+   ==================================================================================================================== *)
+Theorem C20_source_tie_aabb_constructors : forall T (N : NumOps T), NumLits N ->
+  (forall c0 c1 h0 h1 : T, aabb2 (src_aabb_ctor_2 c0 c1 h0 h1) = {| a_center := [c0; c1]; a_half := [h0; h1] |}) /\
+  (forall c0 c1 c2 h0 h1 h2 : T,
+     aabb3 (src_aabb_ctor_3 c0 c1 c2 h0 h1 h2) = {| a_center := [c0; c1; c2]; a_half := [h0; h1; h2] |}) /\
+  (forall l0 l1 u0 u1, aabb2 (src_aabb_of_interval_2 N l0 l1 u0 u1) =
+     aabb_of_interval N {| i_lower := [l0; l1]; i_upper := [u0; u1] |}) /\
+  (forall l0 l1 l2 u0 u1 u2, aabb3 (src_aabb_of_interval_3 N l0 l1 l2 u0 u1 u2) =
+     aabb_of_interval N {| i_lower := [l0; l1; l2]; i_upper := [u0; u1; u2] |}).
+Proof.
+  exact (fun T N L => conj (tie_aabb_ctor_2 N L) (conj (tie_aabb_ctor_3 N L)
+                      (conj (tie_aabb_of_interval_2 N L) (tie_aabb_of_interval_3 N L)))).
+Qed.
+Print Assumptions C20_source_tie_aabb_constructors.
+
+Theorem C20_source_tie_aabb_isInside : forall T (N : NumOps T), NumLits N ->
+  (forall p0 p1 c0 c1 h0 h1,
+     src_aabb_isInside_2 N p0 p1 c0 c1 h0 h1 = aabb_inside N {| a_center := [c0; c1]; a_half := [h0; h1] |} [p0; p1]) /\
+  (forall p0 p1 p2 c0 c1 c2 h0 h1 h2,
+     src_aabb_isInside_3 N p0 p1 p2 c0 c1 c2 h0 h1 h2 =
+     aabb_inside N {| a_center := [c0; c1; c2]; a_half := [h0; h1; h2] |} [p0; p1; p2]).
+Proof. exact (fun T N L => conj (tie_aabb_isInside_2 N L) (tie_aabb_isInside_3 N L)). Qed.
+Print Assumptions C20_source_tie_aabb_isInside.
+
+Theorem C20_source_tie_aabb_toInterval_getters : forall T (N : NumOps T), NumLits N ->
+  (forall c0 c1 h0 h1, ival2 (src_aabb_toInterval_2 N c0 c1 h0 h1) =
+     aabb_to_interval N {| a_center := [c0; c1]; a_half := [h0; h1] |}) /\
+  (forall c0 c1 c2 h0 h1 h2, ival3 (src_aabb_toInterval_3 N c0 c1 c2 h0 h1 h2) =
+     aabb_to_interval N {| a_center := [c0; c1; c2]; a_half := [h0; h1; h2] |}) /\
+  (forall c0 c1 h0 h1 : T, vec2 (src_aabb_getCenterPosition_2 c0 c1 h0 h1) = [c0; c1] /\
+                           vec2 (src_aabb_getHalfWidthExtents_2 c0 c1 h0 h1) = [h0; h1]) /\
+  (forall c0 c1 c2 h0 h1 h2 : T, vec3 (src_aabb_getCenterPosition_3 c0 c1 c2 h0 h1 h2) = [c0; c1; c2] /\
+                                 vec3 (src_aabb_getHalfWidthExtents_3 c0 c1 c2 h0 h1 h2) = [h0; h1; h2]).
+Proof.
+  exact (fun T N L => conj (tie_aabb_toInterval_2 N L) (conj (tie_aabb_toInterval_3 N L)
+                      (conj (tie_aabb_getters_2 N L) (tie_aabb_getters_3 N L)))).
+Qed.
+
+Theorem C20_source_tie_interval_basics : forall T (N : NumOps T), NumLits N ->
+  (forall l0 l1 u0 u1 : T, let i := {| i_lower := [l0; l1]; i_upper := [u0; u1] |} in
+     ival2 (src_interval_ctor_2 l0 l1 u0 u1) = i /\
+     vec2 (src_interval_lower_2 l0 l1 u0 u1) = i_lower i /\ vec2 (src_interval_upper_2 l0 l1 u0 u1) = i_upper i /\
+     vec2 (src_interval_width_2 N l0 l1 u0 u1) = interval_width N i /\
+     vec2 (src_interval_center_2 N l0 l1 u0 u1) = interval_center N i) /\
+  (forall l0 l1 l2 u0 u1 u2 : T, let i := {| i_lower := [l0; l1; l2]; i_upper := [u0; u1; u2] |} in
+     ival3 (src_interval_ctor_3 l0 l1 l2 u0 u1 u2) = i /\
+     vec3 (src_interval_lower_3 l0 l1 l2 u0 u1 u2) = i_lower i /\ vec3 (src_interval_upper_3 l0 l1 l2 u0 u1 u2) = i_upper i /\
+     vec3 (src_interval_width_3 N l0 l1 l2 u0 u1 u2) = interval_width N i /\
+     vec3 (src_interval_center_3 N l0 l1 l2 u0 u1 u2) = interval_center N i).
+Proof. exact (fun T N L => conj (tie_interval_basics_2 N L) (tie_interval_basics_3 N L)). Qed.
+
+(* this->include(other): the parameter (other) comes first, then the members of this *)
+Theorem C20_source_tie_interval_include : forall T (N : NumOps T), NumLits N ->
+  (forall jl0 jl1 ju0 ju1 l0 l1 u0 u1,
+     ival2 (src_interval_include_2 N jl0 jl1 ju0 ju1 l0 l1 u0 u1) =
+     interval_include N {| i_lower := [l0; l1]; i_upper := [u0; u1] |} {| i_lower := [jl0; jl1]; i_upper := [ju0; ju1] |}) /\
+  (forall jl0 jl1 jl2 ju0 ju1 ju2 l0 l1 l2 u0 u1 u2,
+     ival3 (src_interval_include_3 N jl0 jl1 jl2 ju0 ju1 ju2 l0 l1 l2 u0 u1 u2) =
+     interval_include N {| i_lower := [l0; l1; l2]; i_upper := [u0; u1; u2] |}
+                        {| i_lower := [jl0; jl1; jl2]; i_upper := [ju0; ju1; ju2] |}).
+Proof. exact (fun T N L => conj (tie_interval_include_2 N L) (tie_interval_include_3 N L)). Qed.
+Print Assumptions C20_source_tie_interval_include.
+
+Theorem C20_source_tie_interval_inside : forall T (N : NumOps T), NumLits N ->
+  (forall v0 v1 l0 l1 u0 u1,
+     src_interval_inside_2 N v0 v1 l0 l1 u0 u1 = interval_inside N {| i_lower := [l0; l1]; i_upper := [u0; u1] |} [v0; v1]) /\
+  (forall v0 v1 v2 l0 l1 l2 u0 u1 u2,
+     src_interval_inside_3 N v0 v1 v2 l0 l1 l2 u0 u1 u2 =
+     interval_inside N {| i_lower := [l0; l1; l2]; i_upper := [u0; u1; u2] |} [v0; v1; v2]).
+Proof. exact (fun T N L => conj (tie_interval_inside_2 N L) (tie_interval_inside_3 N L)). Qed.
+
+(* OrientedBoundingBox: members aabb_ (centre, half extents) and rotation_ (row-major) *)
+Theorem C20_source_tie_obb_constructor_getters : forall T (N : NumOps T), NumLits N ->
+  (forall c0 c1 h0 h1 r00 r01 r10 r11 : T,
+     obb2 (src_obb_ctor_2 c0 c1 h0 h1 r00 r01 r10 r11) =
+       {| o_center := [c0; c1]; o_half := [h0; h1]; o_rot := [[r00; r01]; [r10; r11]] |} /\
+     vec2 (src_obb_getCenterPosition_2 c0 c1 h0 h1 r00 r01 r10 r11) = [c0; c1] /\
+     vec2 (src_obb_getHalfWidthExtents_2 c0 c1 h0 h1 r00 r01 r10 r11) = [h0; h1] /\
+     src_obb_getRotationMatrix_2 c0 c1 h0 h1 r00 r01 r10 r11 = (r00, r01, r10, r11)) /\
+  (forall c0 c1 c2 h0 h1 h2 r00 r01 r02 r10 r11 r12 r20 r21 r22 : T,
+     obb3 (src_obb_ctor_3 c0 c1 c2 h0 h1 h2 r00 r01 r02 r10 r11 r12 r20 r21 r22) =
+       {| o_center := [c0; c1; c2]; o_half := [h0; h1; h2]; o_rot := [[r00; r01; r02]; [r10; r11; r12]; [r20; r21; r22]] |} /\
+     vec3 (src_obb_getCenterPosition_3 c0 c1 c2 h0 h1 h2 r00 r01 r02 r10 r11 r12 r20 r21 r22) = [c0; c1; c2] /\
+     vec3 (src_obb_getHalfWidthExtents_3 c0 c1 c2 h0 h1 h2 r00 r01 r02 r10 r11 r12 r20 r21 r22) = [h0; h1; h2] /\
+     src_obb_getRotationMatrix_3 c0 c1 c2 h0 h1 h2 r00 r01 r02 r10 r11 r12 r20 r21 r22 =
+       (r00, r01, r02, r10, r11, r12, r20, r21, r22)).
+Proof.
+  exact (fun T N L =>
+    conj (fun c0 c1 h0 h1 r00 r01 r10 r11 =>
+            conj (tie_obb_ctor_2 N L c0 c1 h0 h1 r00 r01 r10 r11) (tie_obb_getters_2 N L c0 c1 h0 h1 r00 r01 r10 r11))
+         (fun c0 c1 c2 h0 h1 h2 r00 r01 r02 r10 r11 r12 r20 r21 r22 =>
+            conj (tie_obb_ctor_3 N L c0 c1 c2 h0 h1 h2 r00 r01 r02 r10 r11 r12 r20 r21 r22)
+                 (tie_obb_getters_3 N L c0 c1 c2 h0 h1 h2 r00 r01 r02 r10 r11 r12 r20 r21 r22))).
+Qed.
+
+Theorem C20_source_tie_obb_isInside : forall T (N : NumOps T), NumLits N ->
+  (forall p0 p1 c0 c1 h0 h1 r00 r01 r10 r11,
+     src_obb_isInside_2 N p0 p1 c0 c1 h0 h1 r00 r01 r10 r11 =
+     obb_inside N {| o_center := [c0; c1]; o_half := [h0; h1]; o_rot := [[r00; r01]; [r10; r11]] |} [p0; p1]) /\
+  (forall p0 p1 p2 c0 c1 c2 h0 h1 h2 r00 r01 r02 r10 r11 r12 r20 r21 r22,
+     src_obb_isInside_3 N p0 p1 p2 c0 c1 c2 h0 h1 h2 r00 r01 r02 r10 r11 r12 r20 r21 r22 =
+     obb_inside N {| o_center := [c0; c1; c2]; o_half := [h0; h1; h2];
+                     o_rot := [[r00; r01; r02]; [r10; r11; r12]; [r20; r21; r22]] |} [p0; p1; p2]).
+Proof. exact (fun T N L => conj (tie_obb_isInside_2 N L) (tie_obb_isInside_3 N L)). Qed.
+Print Assumptions C20_source_tie_obb_isInside.
+
+(* the per-column accumulation loop `for n < DIM: ext.array() += (rotation_.col(n) * half(n)).array().abs()` unrolled *)
+Theorem C20_source_tie_obb_toAxisAlignedBoundingBox : forall T (N : NumOps T), NumLits N ->
+  (forall c0 c1 h0 h1 r00 r01 r10 r11,
+     aabb2 (src_obb_toAABB_2 N c0 c1 h0 h1 r00 r01 r10 r11) =
+     obb_to_aabb N {| o_center := [c0; c1]; o_half := [h0; h1]; o_rot := [[r00; r01]; [r10; r11]] |}) /\
+  (forall c0 c1 c2 h0 h1 h2 r00 r01 r02 r10 r11 r12 r20 r21 r22,
+     aabb3 (src_obb_toAABB_3 N c0 c1 c2 h0 h1 h2 r00 r01 r02 r10 r11 r12 r20 r21 r22) =
+     obb_to_aabb N {| o_center := [c0; c1; c2]; o_half := [h0; h1; h2];
+                      o_rot := [[r00; r01; r02]; [r10; r11; r12]; [r20; r21; r22]] |}).
+Proof. exact (fun T N L => conj (tie_obb_toAABB_2 N L) (tie_obb_toAABB_3 N L)). Qed.
+Print Assumptions C20_source_tie_obb_toAxisAlignedBoundingBox.
+
+(* PointSetPreconditioner<Vector2d|Vector3d>::compute: for EVERY list of points and whatever the members held before the
+   call (s .. ma*: the old member values are parameters of the generated term — a mean that is not reset shows up here) *)
+Theorem C20_source_tie_preconditioner_compute : forall T (N : NumOps T), NumLits N ->
+  (forall (points : list (T * T)) s t0 t1 me0 me1 mi0 mi1 ma0 ma1,
+     pc2 (src_precond_compute_2 N points s t0 t1 me0 me1 mi0 mi1 ma0 ma1) = precond_compute N 2 2 (map pt2 points)) /\
+  (forall (points : list (T * T * T)) s t0 t1 t2 me0 me1 me2 mi0 mi1 mi2 ma0 ma1 ma2,
+     pc3 (src_precond_compute_3 N points s t0 t1 t2 me0 me1 me2 mi0 mi1 mi2 ma0 ma1 ma2) =
+     precond_compute N 3 3 (map pt3 points)).
+Proof. exact (fun T N L => conj (tie_precond_compute_2 N L) (tie_precond_compute_3 N L)). Qed.
+Print Assumptions C20_source_tie_preconditioner_compute.
+
+(* end to end over the reals: the generated terms themselves have the properties *)
+Theorem C20_source_aabb_isInside_is_closed_box :
+  (forall p0 p1 c0 c1 h0 h1 : R,
+     src_aabb_isInside_2 ROps p0 p1 c0 c1 h0 h1 = true <-> (c0 - h0 <= p0 <= c0 + h0 /\ c1 - h1 <= p1 <= c1 + h1)) /\
+  (forall p0 p1 p2 c0 c1 c2 h0 h1 h2 : R,
+     src_aabb_isInside_3 ROps p0 p1 p2 c0 c1 c2 h0 h1 h2 = true <->
+     (c0 - h0 <= p0 <= c0 + h0 /\ c1 - h1 <= p1 <= c1 + h1 /\ c2 - h2 <= p2 <= c2 + h2)).
+Proof. exact (conj src_aabb_isInside_2_closed src_aabb_isInside_3_closed). Qed.
+Print Assumptions C20_source_aabb_isInside_is_closed_box.
+
+Theorem C20_source_preconditioner_extents_correct : forall (points : list (R * R)) s t0 t1 me0 me1 mi0 mi1 ma0 ma1,
+  points <> [] -> (forall p, In p points -> Rabs (fst p) <= nmaxval ROps /\ Rabs (snd p) <= nmaxval ROps) ->
+  let pc := pc2 (src_precond_compute_2 ROps points s t0 t1 me0 me1 mi0 mi1 ma0 ma1) in
+  is_min (map fst points) (pc_min pc).[0%nat] /\ is_max (map fst points) (pc_max pc).[0%nat] /\
+  is_min (map snd points) (pc_min pc).[1%nat] /\ is_max (map snd points) (pc_max pc).[1%nat] /\
+  (pc_mean pc).[0%nat] = Rsum (map fst points) / INR (length points) /\
+  (pc_mean pc).[1%nat] = Rsum (map snd points) / INR (length points).
+Proof. exact src_precond_compute_2_extents. Qed.
+Print Assumptions C20_source_preconditioner_extents_correct.
+
+Example C20_ex_lits_R : NumLits ROps.
+Proof. exact NumLits_R. Qed.
+Example C20_ex_lits_binary64 : NumLits B64Ops.
+Proof. exact NumLits_B64. Qed.
+Example C20_ex_lits_binary32 : NumLits B32Ops.
+Proof. exact NumLits_B32. Qed.
+
+(* ====================================================================================================================
+   FLOATING-POINT LEVEL (Flocq).  B64Ops / B32Ops (GridMapFloat.v): + - * / are the real operation followed by ONE rounding
+   to nearest-even in binary64 / binary32 (rnd64, rnd32); comparisons, negation, |.| exact; b64 x / b32 x = "x is a
+   floating-point number".  The format has no largest exponent: overflow is excluded by hypothesis / not modelled.
+   ==================================================================================================================== *)
+(* (a) running minimum / maximum are EXACT: the reported extents are elements of the data bounding all the data, for every
+       non-empty point list within the finite range (nmaxval B64Ops = DBL_MAX = nmaxval ROps, C20_maxval_binary64) *)
+Theorem C20_extents_exact_binary64 : forall n (pts : list (list R)),
+  pts <> [] -> Forall (fun p => length p = n) pts ->
+  (forall p x, In p pts -> In x p -> Rabs x <= nmaxval B64Ops) ->
+  forall i, (i < n)%nat ->
+    is_min (coords pts i) (cont_min B64Ops n pts).[i] /\ is_max (coords pts i) (cont_max B64Ops n pts).[i].
+Proof. exact box_extents_exact_binary64. Qed.
+Print Assumptions C20_extents_exact_binary64.
+
+Theorem C20_preconditioner_extents_exact_binary64 : forall size cdim (pts : list (list R)),
+  pts <> [] -> Forall (fun p => length p = size) pts ->
+  (forall p x, In p pts -> In x p -> Rabs x <= nmaxval B64Ops) ->
+  forall i, (i < size)%nat ->
+    is_min (coords pts i) (pc_min (precond_compute B64Ops size cdim pts)).[i] /\
+    is_max (coords pts i) (pc_max (precond_compute B64Ops size cdim pts)).[i].
+Proof. exact box_precond_extents_exact_binary64. Qed.
+Print Assumptions C20_preconditioner_extents_exact_binary64.
+
+Theorem C20_extents_exact_binary32 : forall n (pts : list (list R)),
+  pts <> [] -> Forall (fun p => length p = n) pts ->
+  (forall p x, In p pts -> In x p -> Rabs x <= nmaxval B32Ops) ->
+  forall i, (i < n)%nat ->
+    is_min (coords pts i) (cont_min B32Ops n pts).[i] /\ is_max (coords pts i) (cont_max B32Ops n pts).[i].
+Proof. exact box_extents_exact_binary32. Qed.
+
+Theorem C20_preconditioner_extents_exact_binary32 : forall size cdim (pts : list (list R)),
+  pts <> [] -> Forall (fun p => length p = size) pts ->
+  (forall p x, In p pts -> In x p -> Rabs x <= nmaxval B32Ops) ->
+  forall i, (i < size)%nat ->
+    is_min (coords pts i) (pc_min (precond_compute B32Ops size cdim pts)).[i] /\
+    is_max (coords pts i) (pc_max (precond_compute B32Ops size cdim pts)).[i].
+Proof. exact box_precond_extents_exact_binary32. Qed.
+
+Theorem C20_maxval_binary64 : nmaxval B64Ops = nmaxval ROps.
+Proof. exact nmaxval_B64_R. Qed.
+
+(* (b) AxisAlignedBoundingBox::isInside in floats: the subtraction rounds once, |.| and <= are exact *)
+Theorem C20_aabb_inside_iff_binary64 : forall c h p : list R, length c = length h -> length p = length c ->
+  (aabb_inside B64Ops {| a_center := c; a_half := h |} p = true <->
+   forall i, (i < length c)%nat -> Rabs (rnd64 (p.[i] - c.[i])) <= h.[i]).
+Proof. exact box_aabb_inside_iff_binary64. Qed.
+Print Assumptions C20_aabb_inside_iff_binary64.
+
+(* real-inside => float-inside, with NO margin, when the half extents are floats (monotonicity of rounding) *)
+Theorem C20_aabb_real_inside_float_inside_binary64 : forall c h p : list R, length c = length h -> length p = length c ->
+  (forall i, (i < length c)%nat -> b64 h.[i]) ->
+  (forall i, (i < length c)%nat -> Rabs (p.[i] - c.[i]) <= h.[i]) ->
+  aabb_inside B64Ops {| a_center := c; a_half := h |} p = true.
+Proof. exact box_aabb_real_inside_float_inside_binary64. Qed.
+Print Assumptions C20_aabb_real_inside_float_inside_binary64.
+
+(* float-inside => real-inside within half a unit in the last place of the half extent *)
+Theorem C20_aabb_float_inside_real_inside_binary64 : forall c h p : list R, length c = length h -> length p = length c ->
+  (forall i, (i < length c)%nat -> b64 h.[i]) ->
+  aabb_inside B64Ops {| a_center := c; a_half := h |} p = true ->
+  forall i, (i < length c)%nat -> Rabs (p.[i] - c.[i]) <= h.[i] + / 2 * ulp radix2 (FLT_exp (-1074) 53) h.[i].
+Proof. exact box_aabb_float_inside_real_inside_binary64. Qed.
+Print Assumptions C20_aabb_float_inside_real_inside_binary64.
+
+(* ... and that margin is needed: a float box and a float point OUTSIDE the real box that isInside accepts *)
+Theorem C20_aabb_float_inside_implies_real_inside_binary64_refuted :
+  exists c h p : list R, length c = length h /\ length p = length c /\
+    (forall i, (i < length c)%nat -> b64 c.[i] /\ b64 h.[i] /\ b64 p.[i]) /\
+    aabb_inside B64Ops {| a_center := c; a_half := h |} p = true /\
+    aabb_inside ROps {| a_center := c; a_half := h |} p = false.
+Proof. exact box_aabb_float_inside_not_real_inside_binary64. Qed.
+Print Assumptions C20_aabb_float_inside_implies_real_inside_binary64_refuted.
+
+(* when p - c is representable (e.g. Sterbenz: c/2 <= p <= 2c) the float test IS the real test *)
+Theorem C20_aabb_inside_exact_subtraction_binary64 : forall c h p : list R, length c = length h -> length p = length c ->
+  (forall i, (i < length c)%nat -> b64 (p.[i] - c.[i])) ->
+  aabb_inside B64Ops {| a_center := c; a_half := h |} p = aabb_inside ROps {| a_center := c; a_half := h |} p /\
+  (aabb_inside B64Ops {| a_center := c; a_half := h |} p = true <->
+   forall i, (i < length c)%nat -> Rabs (p.[i] - c.[i]) <= h.[i]).
+Proof. exact box_aabb_inside_exact_sub_binary64. Qed.
+
+Theorem C20_sterbenz_binary64 : forall x y, b64 x -> b64 y -> y / 2 <= x <= 2 * y -> b64 (x - y).
+Proof. exact box_sterbenz_binary64. Qed.
+
+(* the interval form lower <= p <= upper does no arithmetic: exact *)
+Theorem C20_interval_inside_exact_binary64 : forall lo hi v : list R, length lo = length v -> length hi = length v ->
+  (interval_inside B64Ops {| i_lower := lo; i_upper := hi |} v = true <->
+   forall i, (i < length v)%nat -> lo.[i] <= v.[i] <= hi.[i]).
+Proof. exact box_interval_inside_iff_binary64. Qed.
+Print Assumptions C20_interval_inside_exact_binary64.
+
+Theorem C20_aabb_inside_iff_binary32 : forall c h p : list R, length c = length h -> length p = length c ->
+  (aabb_inside B32Ops {| a_center := c; a_half := h |} p = true <->
+   forall i, (i < length c)%nat -> Rabs (rnd32 (p.[i] - c.[i])) <= h.[i]).
+Proof. exact box_aabb_inside_iff_binary32. Qed.
+
+Theorem C20_aabb_float_inside_real_inside_binary32 : forall c h p : list R, length c = length h -> length p = length c ->
+  (forall i, (i < length c)%nat -> b32 h.[i]) ->
+  aabb_inside B32Ops {| a_center := c; a_half := h |} p = true ->
+  forall i, (i < length c)%nat -> Rabs (p.[i] - c.[i]) <= h.[i] + / 2 * ulp radix2 (FLT_exp (-149) 24) h.[i].
+Proof. exact box_aabb_float_inside_real_inside_binary32. Qed.
+
+(* (c) interval -> box -> interval in floats: centre = rnd (rnd (hi + lo) / 2), half = rnd (rnd (hi - lo) / 2),
+       lower' = rnd (centre - half), upper' = rnd (centre + half); for ALL real bounds, u = 2^-53, eta = 2^-1075 *)
+Theorem C20_roundtrip_error_binary64 : forall (lo hi : list R) i, length lo = length hi -> (i < length lo)%nat ->
+  Rabs ((i_lower (aabb_to_interval B64Ops (aabb_of_interval B64Ops {| i_lower := lo; i_upper := hi |}))).[i] - lo.[i])
+    <= 6 * (bpow radix2 (-53) * Rmax (Rabs lo.[i]) (Rabs hi.[i])) + 5 * bpow radix2 (-1075) /\
+  Rabs ((i_upper (aabb_to_interval B64Ops (aabb_of_interval B64Ops {| i_lower := lo; i_upper := hi |}))).[i] - hi.[i])
+    <= 6 * (bpow radix2 (-53) * Rmax (Rabs lo.[i]) (Rabs hi.[i])) + 5 * bpow radix2 (-1075).
+Proof. exact box_roundtrip_error_binary64. Qed.
+Print Assumptions C20_roundtrip_error_binary64.
+
+Theorem C20_roundtrip_error_binary32 : forall (lo hi : list R) i, length lo = length hi -> (i < length lo)%nat ->
+  Rabs ((i_lower (aabb_to_interval B32Ops (aabb_of_interval B32Ops {| i_lower := lo; i_upper := hi |}))).[i] - lo.[i])
+    <= 6 * (bpow radix2 (-24) * Rmax (Rabs lo.[i]) (Rabs hi.[i])) + 5 * bpow radix2 (-150) /\
+  Rabs ((i_upper (aabb_to_interval B32Ops (aabb_of_interval B32Ops {| i_lower := lo; i_upper := hi |}))).[i] - hi.[i])
+    <= 6 * (bpow radix2 (-24) * Rmax (Rabs lo.[i]) (Rabs hi.[i])) + 5 * bpow radix2 (-150).
+Proof. exact box_roundtrip_error_binary32. Qed.
+
+(* exact when hi + lo, hi - lo, their halves, lo and hi are representable (dyadic data) *)
+Theorem C20_roundtrip_exact_binary64 : forall (lo hi : list R) i, length lo = length hi -> (i < length lo)%nat ->
+  b64 (hi.[i] + lo.[i]) -> b64 (hi.[i] - lo.[i]) -> b64 ((hi.[i] + lo.[i]) / 2) -> b64 ((hi.[i] - lo.[i]) / 2) ->
+  b64 lo.[i] -> b64 hi.[i] ->
+  (i_lower (aabb_to_interval B64Ops (aabb_of_interval B64Ops {| i_lower := lo; i_upper := hi |}))).[i] = lo.[i] /\
+  (i_upper (aabb_to_interval B64Ops (aabb_of_interval B64Ops {| i_lower := lo; i_upper := hi |}))).[i] = hi.[i].
+Proof. exact box_roundtrip_exact_binary64. Qed.
+Print Assumptions C20_roundtrip_exact_binary64.
+
+(* the real-number round-trip theorem (C20_aabb_interval_roundtrip) is FALSE in binary64: [2^-55, 1] comes back as [0, 1] *)
+Theorem C20_aabb_interval_roundtrip_binary64_refuted :
+  exists lo hi : list R, length lo = length hi /\ b64 lo.[0%nat] /\ b64 hi.[0%nat] /\ 0 < lo.[0%nat] < hi.[0%nat] /\
+    (i_lower (aabb_to_interval B64Ops (aabb_of_interval B64Ops {| i_lower := lo; i_upper := hi |}))).[0%nat] = 0 /\
+    (i_upper (aabb_to_interval B64Ops (aabb_of_interval B64Ops {| i_lower := lo; i_upper := hi |}))).[0%nat] = 1.
+Proof. exact box_roundtrip_inexact_binary64. Qed.
+Print Assumptions C20_aabb_interval_roundtrip_binary64_refuted.
+
+Example C20_ex_extents_hyps_binary64 :
+  [[1; 2]; [3; -4]] <> [] /\ Forall (fun p : list R => length p = 2%nat) [[1; 2]; [3; -4]] /\
+  (forall p x, In p [[1; 2]; [3; -4]] -> In x p -> Rabs x <= nmaxval B64Ops).
+Proof. exact box_extents_hyps_sat_binary64. Qed.
+Example C20_ex_roundtrip_exact_hyps_binary64 :
+  b64 (3 + 1) /\ b64 (3 - 1) /\ b64 ((3 + 1) / 2) /\ b64 ((3 - 1) / 2) /\ b64 1 /\ b64 3.
+Proof. exact box_roundtrip_exact_hyps_sat_binary64. Qed.
 
 (* --- non-vacuity --- *)
 Example C20_ex_rotation2 : forall a, orthogonal2 (cos a) (- sin a) (sin a) (cos a).
